@@ -34,3 +34,4 @@ def run(chk, pid):
         chk.undecide(f'{pid}:obligation-count', f'{got} contract obligations generated, the committed baseline has {want} (a contract stopped binding)')
     chk.extra['contract_obligations'] = got
     chk.assume('pyvc encoding of the Python subset (DESIGN.md 2.1): mathematical ints, 64-bit flag words, static attribute lookup, uninterpreted pure calls')
+    chk.assume('pyvc: object identity (`is`) is an uninterpreted relation that only implies equality; str and bytes constants are distinct objects; `with` binds the context value and __exit__ is a no-op; havoced lists keep length >= 0 (DESIGN.md 0.7)')
